@@ -106,30 +106,35 @@ def config_categorical(n: int, a: str, b: str, has_default: bool, dv: str, is_bo
   return _rt_config(cfg, (n, a, b, has_default, dv, is_bool), 'categorical')
 
 
-def config_conditional(depth: int, lo: int, hi: int, flo: float, fhi: float, multi: bool) -> bool:
+def config_conditional(depth: int, lo: int, hi: int, multi: bool) -> bool:
   """
   pre: 1 <= depth <= 2 and -1 <= lo <= 1 and lo <= hi <= lo + 2
   post: _
   """
   depth = conc(depth, 1, 2)
   lo = conc(lo, -1, 1)
-  hi = conc(hi, lo, lo + 2)      # add_int_param realises its bounds (math.isclose): concretise by branching
-  if not (_finite(flo) and _finite(fhi) and flo <= fhi):
-    return True
-  space = vz.SearchSpace()
-  root = space.root.add_categorical_param('model', ['dnn', 'linear', 'tree'])
-  parents = ['dnn', 'tree'] if multi else ['dnn']
-  child = root.select_values(parents).add_int_param('layers', lo, hi)
-  if depth == 2:
-    child.select_values([lo]).add_float_param('rate', flo, fhi)
-  cfg = space.get('model')
-  p1 = pc.ParameterConfigConverter.to_proto(cfg)
-  back = pc.ParameterConfigConverter.from_proto(p1)
-  p2 = pc.ParameterConfigConverter.to_proto(back)
-  names = sorted(p.name for p in back.traverse())
-  want = sorted(p.name for p in cfg.traverse())
+  hi = conc(hi, lo, lo + 2)
+  multi = cbool(multi)
+  # the subject is the tree structure; every leaf is concrete after branching, so run natively (fast)
+  with NoTracing():
+    space = vz.SearchSpace()
+    root = space.root.add_categorical_param('model', ['dnn', 'linear', 'tree'])
+    parents = ['dnn', 'tree'] if multi else ['dnn']
+    child = root.select_values(parents).add_int_param('layers', lo, hi)
+    if depth == 2:
+      child.select_values([lo]).add_float_param('rate', -0.5, 0.5)
+    if not multi:
+      # the same child name under another parent value, with a different domain
+      root.select_values(['tree']).add_int_param('layers', lo + 10, hi + 20)
+    cfg = space.get('model')
+    p1 = pc.ParameterConfigConverter.to_proto(cfg)
+    back = pc.ParameterConfigConverter.from_proto(p1)
+    p2 = pc.ParameterConfigConverter.to_proto(back)
+    names = sorted((p.name, str(p.bounds) if p.type.is_numeric() else '') for p in back.traverse())
+    want = sorted((p.name, str(p.bounds) if p.type.is_numeric() else '') for p in cfg.traverse())
+    ok = bool(back == cfg and names == want and p2 == p1)
   reach('conditional_depth%d' % depth)
-  return finish(back == cfg and names == want and p2 == p1, (depth, lo, hi, flo, fhi, multi), obs=names)
+  return finish(ok, (depth, lo, hi, multi), obs=names)
 
 
 def measurement(n: int, v1: float, v2: float, secs_whole: int, micros: int, steps: int) -> bool:
@@ -228,23 +233,23 @@ def trial_roundtrip(kind: int, tid: int, fval: float, ival: int, sval: str, bval
 
 
 _KEYS = ['', 'k', ':', 'a:b']
-_NSS = ['', 'a', 'a:b', ':', 'x' + chr(92) + 'y']
+_NSS = [(), ('a',), ('a:b',), (':',), ('x' + chr(92) + 'y',), ('', 'a'), ('a', ''), ('', '')]
 
 
 def suggestion_and_delta(fval: float, sval: str, key: int, val: str, ns1: int, tid: int, count: int) -> bool:
   """
-  pre: len(sval) <= 1 and 0 <= key <= 3 and len(val) <= 1 and 0 <= ns1 <= 4 and 1 <= tid <= 2 and 0 < count
+  pre: len(sval) <= 1 and 0 <= key <= 1 and len(val) <= 1 and 0 <= ns1 <= 7 and 1 <= tid <= 1 and 0 < count
   post: _
   """
   if not _finite(fval):
     return True
   args = (fval, sval, key, val, ns1, tid, count)
-  key, ns1 = _KEYS[conc(key, 0, 3)], _NSS[conc(ns1, 0, 4)]      # dict keys are concrete (hashing realises symbolic strings)
-  tid = conc(tid, 1, 2)
+  key, ns1 = [_KEYS[0], _KEYS[3]][conc(key, 0, 1)], vz.Namespace(_NSS[conc(ns1, 0, 7)])      # dict keys are concrete (hashing realises symbolic strings)
+  tid = conc(tid, 1, 1)
   sug = vz.TrialSuggestion({'f': fval, 's': sval})
-  sug.metadata.ns(ns1)[key] = val
+  sug.metadata.abs_ns(ns1)[key] = val
   delta = vz.MetadataDelta()
-  delta.on_study.ns(ns1)[key] = val
+  delta.on_study.abs_ns(ns1)[key] = val
   delta.on_trials[tid].ns('t')[key] = val
   decision = pythia.SuggestDecision([sug], metadata=delta)
   p1 = pc.SuggestConverter.to_decision_proto(decision)
@@ -252,8 +257,9 @@ def suggestion_and_delta(fval: float, sval: str, key: int, val: str, ns1: int, t
   p2 = pc.SuggestConverter.to_decision_proto(back)
   reach('decision')
   ok = len(back.suggestions) == 1 and back.suggestions[0].parameters == sug.parameters
-  ok = ok and back.suggestions[0].metadata.ns(ns1)[key] == val
-  ok = ok and back.metadata.on_study.ns(ns1)[key] == val and back.metadata.on_trials[tid].ns('t')[key] == val
+  ok = ok and back.suggestions[0].metadata.abs_ns(ns1)[key] == val
+  ok = ok and sorted(tuple(n) for n in back.suggestions[0].metadata.namespaces()) == [tuple(ns1)]
+  ok = ok and back.metadata.on_study.abs_ns(ns1)[key] == val and back.metadata.on_trials[tid].ns('t')[key] == val
   ok = ok and list(back.metadata.on_trials.keys()) == [tid] and p2 == p1
   return finish(ok, args)
 
@@ -284,4 +290,10 @@ def study_config_roundtrip(algo: int, noise: int, stopping: bool, lo: float, hi:
   ok = ok and (back.automated_stopping_config is None) == (sc.automated_stopping_config is None)
   ok = ok and back.search_space == sc.search_space and list(back.metric_information) == list(sc.metric_information)
   ok = ok and back.metadata[key] == val and back.metadata.ns('n')[key] == val and p2 == p1
+  # a config obtained from the wire, edited (entry removed, entry replaced), converted again
+  del back.metadata[key]
+  back.metadata.ns('n')[key] = 'other'
+  again = svz.StudyConfig.from_proto(back.to_proto())
+  ok = ok and key not in again.metadata and again.metadata.ns('n')[key] == 'other'
+  ok = ok and len(list(again.metadata.ns('n').keys())) == 1
   return finish(ok, args)
